@@ -373,7 +373,54 @@ pub fn run(out: &mut Out, tier: &str, seed: u64, _scratch: &str) {
         out.case(req, &real);
     }
     let _ = std::fs::remove_dir_all("/verif/.build/batch/c01d");
-    out.meta(&serde_json::json!({"programs": cases.len(), "feature_programs": feats.len(), "class_chain_programs": chain_cases.len(), "outcome_histogram": hist}));
+    // fourth stream: list comprehensions over lists and ranges with a condition on the loop variable and an element
+    // expression (model: Sem/Comprehension `meaning`); 12 comprehensions per compiled program
+    let n_comp_prog = if tier == "thorough" { 40 } else { 6 };
+    let conds = [("mod2", "x % 2 == 0"), ("mod3", "x % 3 == 1"), ("lt", "x < 4"), ("gt", "x > 0"), ("ne", "x != 2"), ("all", "x == x")];
+    let elems = [("id", "x"), ("add", "x + 1"), ("mul", "x * 10"), ("sub", "x - 3"), ("rsub", "7 - x"), ("sq", "x * x")];
+    let mut comp_reqs: Vec<Vec<String>> = Vec::new();
+    let mut comp_cases: Vec<Case> = Vec::new();
+    for _ in 0..n_comp_prog {
+        let mut body = String::from("def main() -> None:\n");
+        let mut reqs = Vec::new();
+        for k in 0..12 {
+            let (cn, ct) = *rng.pick(&conds);
+            let (en, et) = *rng.pick(&elems);
+            let (src_text, xs): (String, Vec<i64>) = if rng.chance(1, 2) {
+                let (lo, hi) = (rng.range(-4, 3), rng.range(3, 9));
+                (format!("range({lo}, {hi})"), (lo..hi).collect())
+            } else {
+                let n = rng.below(7) as usize;
+                let v: Vec<i64> = (0..n).map(|_| rng.range(-5, 9)).collect();
+                (format!("[{}]", v.iter().map(|x| x.to_string()).collect::<Vec<_>>().join(", ")), v)
+            };
+            if xs.is_empty() { continue; } // an empty list literal has no element type
+            body.push_str(&format!("    c{k} = [{et} for x in {src_text} if {ct}]\n    println(len(c{k}))\n    for v in c{k}:\n        println(v)\n    println(\"end\")\n"));
+            reqs.push(format!("c01 comp {} {cn} {en}", xs.iter().map(|x| x.to_string()).collect::<Vec<_>>().join(",")));
+        }
+        comp_reqs.push(reqs);
+        comp_cases.push(Case { name: String::new(), source: body });
+    }
+    let comp_outs = runner::run_batch("/verif/.build/batch/c01c", "/verif/.build/batch-target", &comp_cases);
+    let mut n_comp = 0u64;
+    for (reqs, o) in comp_reqs.iter().zip(comp_outs.iter()) {
+        match o {
+            Outcome::Ran { stdout, code: 0, .. } => {
+                // groups: <len> v… end
+                let groups: Vec<&str> = stdout.split("end\n").collect();
+                for (req, g) in reqs.iter().zip(groups.iter()) {
+                    let vals: Vec<&str> = g.lines().skip(1).collect();
+                    let len = g.lines().next().unwrap_or("?");
+                    out.case(req, &format!("{len} {}", if vals.is_empty() { "-".to_string() } else { vals.join(",") }));
+                    n_comp += 1;
+                }
+            }
+            other => { for req in reqs { out.case(req, &runner::show(other)); } }
+        }
+    }
+    let _ = std::fs::remove_dir_all("/verif/.build/batch/c01c");
+    let _ = n_comp;
+    out.meta(&serde_json::json!({"comprehensions": n_comp, "programs": cases.len(), "feature_programs": feats.len(), "class_chain_programs": chain_cases.len(), "outcome_histogram": hist}));
 }
 
 // =====================================================================================================================
@@ -399,6 +446,8 @@ pub fn c02_probes() -> Vec<(&'static str, String)> {
     vec![
         ("len-before-less-than", "def f(xs: List[int]) -> bool:\n    return len(xs) < 3\n\ndef main() -> None:\n    print(f([1]))\n".to_string()),
         ("string-variable-concat", p("    s: str = \"ab\"\n    t: str = \"cd\"\n    v = s + t\n    print(v)\n")),
+        ("string-variable-concat-reused", "def f(s: str, t: str) -> str:\n    a = s + t\n    b = s + t\n    return a + b\n\ndef main() -> None:\n    print(f(\"x\", \"y\"))\n".to_string()),
+        ("string-field-compared", "model M:\n    name: str\n\n    def is_a(self) -> bool:\n        return self.name == \"a\" or self.name < \"b\"\n\ndef main() -> None:\n    print(M(name=\"a\").is_a())\n".to_string()),
         ("string-variable-used-twice", "def f(s: str) -> bool:\n    a = s < \"m\"\n    b = s > \"c\"\n    return a and b\n\ndef main() -> None:\n    print(f(\"k\"))\n".to_string()),
         ("list-of-string-literals", p("    xs: List[str] = [\"a\", \"b\"]\n    print(len(xs))\n")),
         ("dict-literal-with-string-keys", p("    d: Dict[str, int] = {\"a\": 1}\n    print(len(d))\n")),
@@ -434,6 +483,10 @@ pub fn c02_negative() -> Vec<(&'static str, String)> {
         ("bare-return-in-int-function", p("def f(n: int) -> int:\n    if n > 0:\n        return\n    return 1\n")),
         ("return-value-in-none-function", p("def f(n: int) -> None:\n    return n\n")),
         ("return-str-in-int-function", p("def f(n: int) -> int:\n    return \"s\"\n")),
+        ("tuple-literal-arity-return", p("def f(n: int) -> Tuple[str, int]:\n    return (\"a\", n, n)\n")),
+        ("tuple-literal-arity-argument", p("def g(t: Tuple[int, int]) -> int:\n    return 1\n\ndef f() -> int:\n    return g((1, 2, 3))\n")),
+        ("tuple-literal-arity-annotation", p("def f() -> int:\n    t: Tuple[int, int] = (1, 2, 3)\n    return 1\n")),
+        ("tuple-literal-too-short", p("def f(n: int) -> Tuple[str, int, int]:\n    return (\"a\", n)\n")),
         ("parameter-default-wrong-type", p("def f(n: int = \"s\") -> int:\n    return n\n")),
         ("method-parameter-default-wrong-type", p("class Kd:\n    v: int\n\n    def m(self, n: int = \"s\") -> int:\n        return n\n")),
         ("append-wrong-element-type", p("def f() -> int:\n    mut xs: List[int] = []\n    xs.append(\"s\")\n    return len(xs)\n")),
